@@ -126,6 +126,13 @@ func scenarioC17(rc *RunCtx) *Violation {
 					dd.RemoveAll(f)
 					return "user deletes output " + f
 				}
+				if g.n(2) == 0 && len(contents[f]) > 0 {
+					// same length, other bytes (the size alone does not show the change)
+					b := []byte(contents[f])
+					b[g.n(len(b))] ^= 1
+					dd.PutFile(f, b, true)
+					return "user flips a bit of output " + f
+				}
 				dd.PutFile(f, []byte(contents[f]+"/* tampered */"), true)
 				return "user modifies output " + f
 			}
